@@ -11,6 +11,14 @@ class Invalid(Exception):
     pass
 
 
+def _lines(text):
+    """lines as a text-mode file iterator yields them (split on \\n only)"""
+    ls = text.split("\n")
+    if ls and ls[-1] == "":
+        ls.pop()
+    return ls
+
+
 def format(asm):  # noqa: A001
     out = []
     for h in asm.get("header", []):
@@ -64,7 +72,7 @@ def parse(text):
     scaffolds = []
     acct = []
     cur = None
-    for ln, line in enumerate(text.splitlines(), 1):
+    for ln, line in enumerate(_lines(text), 1):
         if is_blank(line):
             continue
         if line.startswith("##"):
@@ -90,7 +98,7 @@ def validate(text, lengths=None):
     probs = []
     objs = {}
     order = []
-    for ln, line in enumerate(text.splitlines(), 1):
+    for ln, line in enumerate(_lines(text), 1):
         if is_blank(line) or line.startswith("#"):
             continue
         f = line.rstrip("\n").split("\t")
